@@ -321,7 +321,11 @@ func parent(ck *Check, tier string, seed int64, verifDir string, workers int, bu
 		go func(k int) {
 			defer wg.Done()
 			cmd := exec.Command(os.Args[0], "-id", ck.ID, "-tier", tier, "-shard", fmt.Sprintf("%d/%d", k, n))
-			cmd.Env = append(os.Environ(), "VERIF_DEADLINE_UNIX="+strconv.FormatInt(deadline.Unix(), 10), "GOMAXPROCS=2")
+			gmp := "GOMAXPROCS=2"
+			if ck.Serial {
+				gmp = "GOMAXPROCS=" + strconv.Itoa(runtime.NumCPU())
+			}
+			cmd.Env = append(os.Environ(), "VERIF_DEADLINE_UNIX="+strconv.FormatInt(deadline.Unix(), 10), gmp)
 			var stdout, stderr bytes.Buffer
 			cmd.Stdout = &stdout
 			cmd.Stderr = &stderr
